@@ -124,6 +124,80 @@ theorem decrypt_failure_frees (c mac il ml dl dp ip mr nd rb ri nu ru rc nfn rf 
   simp only [KOut.count, List.filter, String.reduceBEq, List.length] at h ⊢
   omega
 
+/-! ## `enc_compress` (C01 / C10): the zip byte of the outer header says NONE exactly when the inner layer is left uncompressed -/
+
+/-- the outer header's zip byte is overwritten (through `outer_zip_ref`) with NONE -/
+def patchesHeader (o : KOut) : Prop := ("wr", [0, 1, 0, 0]) ∈ o.events
+instance (o : KOut) : Decidable (patchesHeader o) := by unfold patchesHeader; infer_instance
+
+/-- **Compression that does not shrink the inner layer falls back to "not compressed" consistently**: the request's zip type
+    becomes NONE, the zip byte already packed into the outer header is overwritten with NONE through `outer_zip_ref`, the
+    compressed scratch buffer is wiped and freed, and the inner layer is left as it was. -/
+theorem fallback_patches_header (z il iml ip imp mr rl nz rb : Int) (zr : Int → Int)
+    (hz : z ≠ 0) (hok : 0 ≤ rl ∧ mr ≠ 0 ∧ 0 ≤ rb) (hbig : nz ≥ il) :
+    let o := enc_compress z il iml ip imp mr rl nz rb zr
+    o.ret = 0 ∧ o.get "c.msg.zip" z = 0 ∧ patchesHeader o ∧ o.written "c.inner" = none ∧ o.written "c.inner_len" = none ∧
+    o.count "free:buf" = 1 ∧ o.count "free:c.inner_mem" = 0 := by
+  obtain ⟨h1, h2, h3⟩ := hok
+  have h1' : ¬ rl < 0 := by omega
+  have h3' : ¬ rb < 0 := by omega
+  dsimp only
+  unfold enc_compress patchesHeader
+  simp [hz, h1', h2, h3', hbig, KOut.get, KOut.written, KOut.count]
+
+/-- **Compression that shrinks it replaces the inner layer**: the inner layer becomes the compressed block of the reported
+    length, the old one is wiped and freed, the zip type and the outer header stay as packed. -/
+theorem compressed_replaces_inner (z il iml ip imp mr rl nz rb : Int) (zr : Int → Int)
+    (hz : z ≠ 0) (hok : 0 ≤ rl ∧ mr ≠ 0 ∧ 0 ≤ rb) (hsmall : nz < il) :
+    let o := enc_compress z il iml ip imp mr rl nz rb zr
+    o.ret = 0 ∧ o.written "c.msg.zip" = none ∧ ¬ patchesHeader o ∧ o.get "c.inner" 0 = mr ∧ o.get "c.inner_len" (-1) = nz ∧
+    o.count "free:c.inner_mem" = 1 ∧ o.count "free:buf" = 0 := by
+  obtain ⟨h1, h2, h3⟩ := hok
+  have h1' : ¬ rl < 0 := by omega
+  have h3' : ¬ rb < 0 := by omega
+  have h4 : ¬ nz ≥ il := by omega
+  dsimp only
+  unfold enc_compress patchesHeader
+  simp [hz, h1', h2, h3', h4, KOut.get, KOut.written, KOut.count]
+
+/-- **A failing compression fails the encode** (it never silently emits an inconsistent credential): -1, an error is set, the
+    zip type, the outer header and the inner layer are untouched, and the scratch buffer - if it was allocated - is freed once. -/
+theorem compression_failure_is_an_error (z il iml ip imp mr rl nz rb : Int) (zr : Int → Int)
+    (hz : z ≠ 0) (hfail : rl < 0 ∨ mr = 0 ∨ rb < 0) :
+    let o := enc_compress z il iml ip imp mr rl nz rb zr
+    o.ret = -1 ∧ 0 < o.count "m_msg_set_err" ∧ o.writes = [] ∧ ¬ patchesHeader o ∧
+    o.count "free:buf" = (if 0 < rl ∧ mr ≠ 0 then 1 else 0) := by
+  dsimp only
+  unfold enc_compress patchesHeader
+  simp only [apply_ite KOut.ret, apply_ite KOut.writes, apply_ite KOut.events, apply_ite (fun o => KOut.count o "m_msg_set_err"),
+    apply_ite (fun o => KOut.count o "free:buf")]
+  simp only [KOut.count, List.filter, String.reduceBEq, List.length]
+  refine ⟨?_, ?_, ?_, ?_, ?_⟩
+  · repeat' (first | split | omega)
+  · repeat' (first | split | omega)
+  · repeat' (first | split | rfl | omega)
+  · repeat' (first | split | omega | (simp; done))
+  · repeat' (first | split | omega)
+
+/-- **Success says which of the two it was**: after a successful `enc_compress` of a compressed request, the header was
+    patched exactly when the inner layer was NOT replaced. -/
+theorem header_says_what_the_inner_is (z il iml ip imp mr rl nz rb : Int) (zr : Int → Int) (hz : z ≠ 0)
+    (h : (enc_compress z il iml ip imp mr rl nz rb zr).ret = 0) :
+    patchesHeader (enc_compress z il iml ip imp mr rl nz rb zr) ↔ (enc_compress z il iml ip imp mr rl nz rb zr).written "c.inner" = none := by
+  by_cases hf : rl < 0 ∨ mr = 0 ∨ rb < 0
+  · have := (compression_failure_is_an_error z il iml ip imp mr rl nz rb zr hz hf).1
+    omega
+  · have hok : 0 ≤ rl ∧ mr ≠ 0 ∧ 0 ≤ rb := by omega
+    by_cases hb : nz ≥ il
+    · have t := fallback_patches_header z il iml ip imp mr rl nz rb zr hz hok hb
+      exact ⟨fun _ => t.2.2.2.1, fun _ => t.2.2.1⟩
+    · have t := compressed_replaces_inner z il iml ip imp mr rl nz rb zr hz hok (by omega)
+      constructor
+      · intro hp; exact absurd hp t.2.2.1
+      · intro hw
+        have : (enc_compress z il iml ip imp mr rl nz rb zr).get "c.inner" 0 = 0 := by simp [KOut.get, hw]
+        omega
+
 /-! ## the model's MAC stage is the code's -/
 
 open Munge.Cred in
